@@ -37,8 +37,9 @@ def run_spec(draw):
     kinds = {t: draw(st.sampled_from(KINDS)) for t in tickers}
     mult = {t: draw(st.sampled_from([1, 1, 1, 10])) for t in tickers}
     coup = {t: [draw(st.sampled_from([0.0, 0.0, 0.01, 0.025, -0.005, 0.5])) for _ in range(n)] for t in tickers}
-    cl = {t: [draw(st.sampled_from([0.0, 0.001, 0.01])) for _ in range(n)] for t in tickers if draw(st.booleans())}
-    cs = {t: [draw(st.sampled_from([0.0, 0.002, 0.02])) for _ in range(n)] for t in tickers if draw(st.booleans())}
+    # rates may be negative: a short earning a rebate, a long funded at a negative rate
+    cl = {t: [draw(st.sampled_from([0.0, 0.001, 0.01, -0.002])) for _ in range(n)] for t in tickers if draw(st.booleans())}
+    cs = {t: [draw(st.sampled_from([0.0, 0.002, 0.02, -0.003, -0.01])) for _ in range(n)] for t in tickers if draw(st.booleans())}
     ks = draw(st.lists(st.sampled_from(tickers), min_size=1, max_size=nt, unique=True))
     raw = [draw(st.integers(1, 6)) for _ in ks]
     w = {k: round(r / float(sum(raw)) * (1 if draw(st.integers(0, 3)) else -1), 4) for k, r in zip(ks, raw)}
